@@ -59,6 +59,35 @@ def small_case(rng, kind):
     return p.case()
 
 
+def alias_case(rng, i):
+    """the SAME witness handles in several operand positions (sub p p, add p (neg p), doubling, select p p)"""
+    p = PProg(); p.tags = ["shared-handles"]
+    P = random_subgroup_point(rng) if i % 7 else (0, 1)
+    a, _ = p.pt(ext_of(P))
+    k = i % 8
+    if k == 0: p.add(a, a); p.tags.append("add p p")
+    elif k == 1: p.add(a, a, "sub"); p.tags.append("sub p p")
+    elif k == 2: p.add(a, p.neg(a)); p.tags.append("add p (neg p)")
+    elif k == 3: p.add(p.neg(a), a); p.tags.append("add (neg p) p")
+    elif k == 4: p.add(p.neg(a), a, "sub"); p.tags.append("sub (neg p) p")
+    elif k == 5: bit = p.w(rng.below(2)); p.selpt(bit, a, a); p.tags.append("select p p")
+    elif k == 6: bit = p.w(rng.below(2)); p.add(a, p.selid(bit, a)); p.tags.append("add p (select_identity p)")
+    else: n = p.neg(a); p.add(n, n, "sub"); p.tags.append("sub (neg p) (neg p)")
+    return p.case()
+
+
+def pole_case(rng, i):
+    """raw (unvalidated) addends on which the addition law has a pole: d*x1*x2*y1*y2 = +1 or -1"""
+    p = PProg(); p.tags = ["pole", "pole=%s" % ("+1" if i % 2 == 0 else "-1")]
+    x1, y1, x2 = (rng.choice([2, 3, 5, rng.fe() or 1]) for _ in range(3))
+    y2 = (1 if i % 2 == 0 else R - 1) * inv(D * x1 % R * y1 % R * x2 % R) % R
+    a = (p.w(x1), p.w(y1)); b = (p.w(x2), p.w(y2))
+    if i % 4 >= 2:
+        a, b = b, a
+    p.add(a, b, "addraw")
+    return p.case()
+
+
 def mul_case(rng):
     p = PProg(); p.tags = ["mulpt"]
     P = random_subgroup_point(rng) if rng.coin(3, 4) else (0, 1)
@@ -77,13 +106,16 @@ def run(ctx, broken):
     kinds = ["add", "sub", "neg", "selid", "selpt", "add"]
     cs = [small_case(rng, kinds[i % len(kinds)]) for i in range(n_small)]
     cs += [mul_case(rng) for _ in range(n_mul)]
+    cs += [alias_case(rng, i) for i in range(16 if ctx.tier == "quick" else 160)]
+    cs += [pole_case(rng, i) for i in range(8 if ctx.tier == "quick" else 80)]
     from props.c05 import cancel_cases
     cs += cancel_cases(rng, ("var",), 1 if ctx.tier == "quick" else 8)
     r.run(cs)
     st = r.report(broken)
     st["rule"] = ("pairs of subgroup points {identity, P/-P, P/P, P/identity, random}, Z-scaled extended inputs; add/sub/neg/"
                   "select_identity/select_point with forged helper wire x1*y2 or forged output (expect unsat), boolean and "
-                  "non-boolean bits; component_mul_point with scalars {0,1,2,r_J-1,r_J,2^252-1,2^252,r-1,random}. Each case: "
+                  "non-boolean bits; the same witness handles in several operand positions (sub p p, add p (neg p), doubling, select p p); "
+                  "raw addends at both poles d*x1*x2*y1*y2 = +-1 of the addition law; component_mul_point with scalars {0,1,2,r_J-1,r_J,2^252-1,2^252,r-1,random}. Each case: "
                   "layout/witness hashes impl vs model, returned coordinates vs the group law (Python oracle, independent "
                   "implementation), prove+verify vs model sysSat.")
     return st
